@@ -114,6 +114,23 @@ def family(name, tier):
         yield from depth3(tier)
     elif name == "medium":
         yield from T.medium(tier)
+    elif name == "big":
+        # arrays of 15..40 elements of every element kind (aligned, after a sub-byte field, inside a delimited type), and kilobyte-sized
+        # fixed fields at the end of a structure (omitted in some values)
+        i8, u8, u16 = ["int", 8], ["uint", 8, "s"], ["uint", 16, "s"]
+        elems = [i8, u8, ["byte"], ["utf8"], ["int", 16], u16, ["float", 32, "s"], ["float", 16, "t"], ["bool"], ["uint", 3, "s"], ["struct", [i8]], ["delim", ["struct", [u8]], 16], ["union", [i8, ["bool"]]]]
+        for e in elems:
+            for n in ((15, 16, 17, 33) if tier == "quick" else (8, 9, 15, 16, 17, 31, 32, 33, 40, 64, 65)):
+                if e[0] != "utf8":
+                    yield ["struct", [["farr", e, n]]]
+                    yield ["struct", [["bool"], ["farr", e, n], ["uint", 3, "s"]]]
+                yield ["struct", [["uint", 3, "s"], ["varr", e, n]]]
+                yield ["delim", ["struct", [["varr", e, n], ["bool"]]], -(-L.tmax(["struct", [["varr", e, n], ["bool"]]]) // 8) * 8 + 8]
+        for e, n in ((u8, 1024), (u8, 1025), (u16, 600), (["bool"], 8200), (["byte"], 1100), (["struct", [u8]], 1030)):
+            yield ["struct", [u8, ["farr", e, n]]]
+            yield ["struct", [["bool"], ["farr", e, n]]]
+            yield ["delim", ["struct", [u8, ["farr", e, n]]], L.tmax(["struct", [u8, ["farr", e, n]]]) + 64]
+            yield ["struct", [["delim", ["struct", [u8, ["farr", e, n]]], L.tmax(["struct", [u8, ["farr", e, n]]]) + 64], u8]]
     elif name == "colliders":
         # unions / structures over variants whose length sets differ but agree in min, max and residues mod 32: every representation's
         # length must still be an element of the type's bit_length_set
@@ -147,7 +164,7 @@ ALIAS_POOL = [
 
 
 def plan(tier):
-    fams = [("scalars", 8), ("depth1s", 24), ("depth1u", 16), ("depth2", 32), ("colliders", 4), ("nested-arrays", 4), ("medium", 8)]
+    fams = [("scalars", 8), ("depth1s", 24), ("depth1u", 16), ("depth2", 32), ("colliders", 4), ("nested-arrays", 4), ("medium", 8), ("big", 16)]
     if tier != "quick":
         fams.append(("depth3", 32))
     shards = [{"family": n, "part": p, "parts": k} for n, k in fams for p in range(k)]
